@@ -184,8 +184,65 @@ def edge_templates():
     return out[:MONITOR_ONLY] + tail, mon
 
 
+def fragment_types(res, rnd, n, broken_model):
+    """the checker model (SslModel.Model.Check, what Thm/C01Eval is about) against the implementation: programs of the
+    first-order fragment over opaque free variables; same verdict (typed / rejected) and, when typed, the same static type"""
+    from gen import fragment as FR
+    from vlib import driver_run
+    g = FR.Gen(rnd)
+    bodies = [g.program(rnd.choice([1, 2, 2, 3])) for _ in range(n // 4)] + \
+        [g.typed_program(rnd.choice([1, 2, 3, 3]), rnd.choice([0.0, 0.05, 0.15])) for _ in range(n - n // 4)]
+    pre = FR.prelude()
+    impl = harness_run(["prog\t\t" + esc_field(A.program_src(pre + b)) for b in bodies])
+    if broken_model:
+        res.streams["fragment-types"] = dict(programs=n, compared=0)
+        return
+    binds = " ".join("(%s %s)" % (nm, T.canon(t)) for nm, t, _ in FR.FREE)
+    model = driver_run(["tyof (%s) %s" % (binds, A.program_sexp(b)) for b in bodies])
+    rel, relmeta = [], []
+    stats = dict(ok=0, ill=0, unsup=0)
+    for b, il, ml in zip(bodies, impl, model):
+        res.evaluations += 1
+        src = A.program_src(b)
+        si, sm = sexp_parse(il), sexp_parse(ml)
+        verdict = sm[0] if isinstance(sm, list) and sm else str(sm)
+        if verdict not in ("ok", "ill", "unsup"):
+            res.broken.append("correspondence:checker model could not read `%s`: %s" % (src[:200], ml[:100]))
+            res.disagreements_checked += 1
+            continue
+        stats[verdict] += 1
+        res.count("fragment:" + verdict)
+        if verdict == "unsup":
+            continue
+        accepted = isinstance(si, list) and si and si[0] == "accepted"
+        rejected = isinstance(si, list) and si and si[0] == "rejected"
+        if not (accepted or rejected):
+            res.violation("implementation crashed / panicked on a fragment program `%s`: %s" % (src[:300], il[:200]),
+                          dict(program=A.program_src(pre + b), impl=il), dict(oracle="crash", cls=il[:20]))
+            continue
+        res.nontrivial.add(src)
+        if verdict == "ill" and accepted:
+            res.disagreements_checked += 1
+            res.broken.append("correspondence:checker model rejects `%s`, implementation types it %s" % (src[:300], sexp_str(si[1])[:100]))
+        elif verdict == "ok" and rejected:
+            res.disagreements_checked += 1
+            res.broken.append("correspondence:checker model types `%s` as %s, implementation rejects it: %s" % (src[:300], sexp_str(sm[1])[:100], il[:120]))
+        elif verdict == "ok":
+            rel.append("ty rel %s %s" % (sexp_str(si[1]), sexp_str(sm[1]))); relmeta.append((src, sexp_str(si[1]), sexp_str(sm[1])))
+        else:
+            res.traces_validated += 1
+    for (src, ti, tm), out in zip(relmeta, driver_run(rel)):
+        if out.startswith("eq=1"):
+            res.traces_validated += 1
+        else:
+            res.disagreements_checked += 1
+            res.broken.append("correspondence:static type of `%s`: implementation %s, checker model %s" % (src[:300], ti[:120], tm[:120]))
+    res.streams["fragment-types"] = dict(programs=n, **stats)
+
+
 def run(res, tier, seed, broken_model):
     rnd = random.Random(seed)
+    fragment_types(res, random.Random(seed + 3), 1500 if tier == "quick" else 40000, broken_model)
     spec_t, mon_t = edge_templates()
     erecs = P.run_programs(spec_t, broken_model=broken_model)
     mrecs = P.run_programs(mon_t, broken_model=True)
